@@ -152,7 +152,7 @@ package interpreter
 //@   ensures err == nil && typeis(result, bool)
 //@   ensures kindI(left) != 7 && kindI(right) != 7 ==> result.(bool) == !eqI(left, right)
 //@ func comparableValue
-//@   trusted
+//@   strict
 //@   modifies nothing
 //@   ensures result == comparable(v)
 
@@ -283,3 +283,10 @@ package interpreter
 //@ func (*Future).AwaitWithContext
 //@   requires f != nil
 //@   atunlock f.state == atlock(f.state) && f.value == atlock(f.value) && f.err == atlock(f.err) && f.resolved == atlock(f.resolved)
+
+// ---- request isolation (C08): a request evaluates in an environment of its own - every binding ExecuteRoute makes goes into
+// ---- an Environment created by this call, and the route body runs in it (the shared global environment is only its parent)
+//@ func (*Interpreter).ExecuteRoute
+//@   callpre (*interpreter.Environment).Define fresh(arg0)
+//@   callpre (*interpreter.Environment).DefineWithSource fresh(arg0)
+//@   callpre (*interpreter.Interpreter).executeStatements fresh(arg2)
